@@ -71,6 +71,13 @@ theorem intStr_shape (z : Int) :
     · intro heq; simp at heq; omega
     · simp [h]; omega
 
+theorem intStr_ne_plus (z : Int) : intStr z ≠ [43] := by
+  by_cases h : z < 0
+  · rw [intStr_neg z h]; simp
+  · rw [intStr_nonneg z (by omega)]
+    obtain ⟨c, t, e, h1, _, _⟩ := natStr_head z.natAbs
+    rw [e]; intro heq; simp at heq; omega
+
 /-! ### comma / exponent / dot scanning on clean texts -/
 theorem stripCommas_id (s : Str) (h : ∀ c ∈ s, c ≠ 44) : stripCommas s = s := by
   unfold stripCommas
